@@ -240,6 +240,7 @@ theorem T2_stmt :
   | .skip w, st, _ => by simp only [compileStmt]
   | .exprstmt e, st, _ => by simp only [compileStmt]
   | .ret e, st, _ => by simp only [compileStmt]
+  | .vcall _ _ _ _, st, _ => by simp only [compileStmt]
   | .ite c t none, st, h => by
       simp only [CarveS, Bool.and_eq_true] at h
       obtain ⟨⟨⟨hc, hcc⟩, ht⟩, _⟩ := h
